@@ -1,7 +1,7 @@
 #!/bin/bash
 # usage: run_all.sh [quick|thorough] — runs every registered check on /repo, sequentially, and prints one line each.
 tier=${1:-quick}
-cd /verif
+cd "$(dirname "$(readlink -f "$0")")/.."
 for i in $(seq -w 1 20); do
   out=$(./check C$i --tier $tier 2>&1); rc=$?
   echo "C$i rc=$rc $(echo "$out" | grep -E '^(OK|VIOLATION|INCONCLUSIVE|BUILD)' | head -2 | tr '\n' ' ' | cut -c1-200)"
